@@ -39,6 +39,14 @@ def load_mutants(pid):
                     continue
                 if mj.get("property") == pid:
                     out.append({"id": "seeded-" + name, "kind": "seed", "desc": "independent seeded change " + name, "edits": [], "patch": patch})
+    # compound seeds (/verif/seeded/compound.json): a behaviour-preserving variant with one defect planted INSIDE the refactored code (the
+    # helper, property, record class or module-level function the canonicaliser has to see through): the property's rules must still fire
+    cf = os.path.join(sd, "compound.json")
+    if os.path.exists(cf):
+        for c in json.load(open(cf)).get("compound", []):
+            if c.get("property") == pid:
+                out.append({"id": "compound-" + c["id"], "kind": "seed", "desc": "defect inside refactored code: %s on %s" % (c.get("what", ""), c["refactoring"]), "edits": [],
+                            "patch": os.path.join(os.path.dirname(sd), "refactorings", c["refactoring"], "patch.diff"), "post_edits": [tuple(e) for e in c["edits"]]})
     # independently written behaviour-preserving variants (/verif/refactorings/<name>/patch.diff): those recorded as silent for
     # all checks in STATUS.json must stay silent for this property too
     rd = os.path.join(os.path.dirname(os.path.dirname(os.path.abspath(__file__))), "refactorings")
@@ -82,10 +90,12 @@ def _work(args):
             r = subprocess.run(["patch", "-p1", "-s", "--no-backup-if-mismatch", "-d", d, "-i", mutant["patch"]], stdout=subprocess.PIPE, stderr=subprocess.STDOUT)
             if r.returncode != 0:
                 why = "patch does not apply to the current tree"
+        if not why and mutant.get("post_edits"):
+            why = apply_edits(d, mutant["post_edits"])
         if why:
             return mutant["id"], "skipped", why, []
         import ast
-        for rel, _o, _n in mutant["edits"]:
+        for rel, _o, _n in list(mutant["edits"]) + list(mutant.get("post_edits", ())):
             try:
                 ast.parse(open(os.path.join(d, "adb_shell", rel)).read())
             except SyntaxError as e:
